@@ -53,6 +53,33 @@ def _tmpbase():
     return "/dev/shm" if os.path.isdir("/dev/shm") and os.access("/dev/shm", os.W_OK) else None
 
 
+class _HarnessEnv:
+    """process-wide settings for the harness: pydra's persistent file-hash cache in a temp dir (not
+    ~/.cache), no etelemetry network request from Submitter.__init__, pydra's error log silenced"""
+
+    def __enter__(self):
+        import logging
+
+        self.hash_cache = tempfile.mkdtemp(prefix="vf_hashes_", dir=_tmpbase())
+        self.old = {k: os.environ.get(k) for k in ("PYDRA_HASH_CACHE", "NO_ET")}
+        os.environ["PYDRA_HASH_CACHE"] = self.hash_cache
+        os.environ["NO_ET"] = "1"
+        self.logger = logging.getLogger("pydra")
+        self.level = self.logger.level
+        self.logger.setLevel(logging.CRITICAL + 1)
+        return self
+
+    def __exit__(self, *exc):
+        self.logger.setLevel(self.level)
+        shutil.rmtree(self.hash_cache, ignore_errors=True)
+        for k, v in self.old.items():
+            if v is None:
+                os.environ.pop(k, None)
+            else:
+                os.environ[k] = v
+        return False
+
+
 # ------------------------------------------------------------------------------ case space
 
 
@@ -338,9 +365,11 @@ def run(ctx):
         "the fake lmod script stands for the real `lmod python load` protocol (prints os.environ[...] = ... lines and _mlstatus)",
         "/proc/self/environ and `env -0` report the environment of the executed process exactly",
     )
-    hash_cache = tempfile.mkdtemp(prefix="vf_c39_hashes_", dir=_tmpbase())
-    old = os.environ.get("PYDRA_HASH_CACHE")
-    os.environ["PYDRA_HASH_CACHE"] = hash_cache
+    with _HarnessEnv():
+        _run(ctx)
+
+
+def _run(ctx):
     h = Harness()
     try:
         d0 = ctx.domain(
@@ -383,20 +412,16 @@ def run(ctx):
         _drive(ctx, d3, h, cases_unset(ctx), "recorded")
     finally:
         h.close()
-        shutil.rmtree(hash_cache, ignore_errors=True)
-        if old is None:
-            os.environ.pop("PYDRA_HASH_CACHE", None)
-        else:
-            os.environ["PYDRA_HASH_CACHE"] = old
 
 
 def replay(rec):
     case = rec["case"]["case"]
-    h = Harness()
-    try:
-        out = h.run_case(case, rec["case"].get("mode", "real"))
-    finally:
-        h.close()
+    with _HarnessEnv():
+        h = Harness()
+        try:
+            out = h.run_case(case, rec["case"].get("mode", "real"))
+        finally:
+            h.close()
     print(f"replay {PID}: case={case}")
     print(f"  lmod output : {out['lmod_output']!r}")
     print(f"  caller env  : {out['caller_env']}")
